@@ -27,12 +27,14 @@ import (
 type gcSub struct {
 	Name        string
 	Topic       string
-	Behav       string // ack | nack1 | nack2 | mutate | slow | neverack | noread (never receives) | republish:<topic> | peek | stall2 (stalls 1600 ms on its second message)
+	Behav       string // ack | nack1 | nack2 | mutate | slow | neverack | noread (never receives) | republish:<topic> | peek | stall2 (stalls 1600 ms on its second message) | stall6 (5.6 s on its first)
 	Phase       int    // 0 before the publishers, 1 concurrently with them, 2 after they finished
 	CancelAfter int    // cancel the subscription context after that many receipts (0 = never)
-	CancelAt    int    // or in phase: 1 concurrently with the publishers, 2 after them (0 = never)
+	CancelAt    int    // or in phase: 1 concurrently with the publishers, 2 after them, 3 after them and together with Close (0 = never)
 	Decorators  int    // MessageTransformSubscriberDecorators in front of the Pub/Sub
 	StopReading bool   // the consumer stops reading after CancelAfter receipts instead of cancelling
+	Deadline    bool   // the Subscribe context ends by its deadline (Err() = DeadlineExceeded) instead of a cancel call
+	AfterPubs   bool   // (phase 1) the Subscribe call is made only once the scenario's publishers have returned
 	BgCtx       bool   // Subscribe is called with a context that can never be cancelled (values on top of context.Background())
 }
 
@@ -70,6 +72,25 @@ type gcScenario struct {
 
 type gcMarker struct{}
 
+// gcDeadlineCtx is a context that ends the way a deadline does: when expire() is called Done() closes and Err() is DeadlineExceeded.
+type gcDeadlineCtx struct {
+	context.Context
+	done chan struct{}
+	once sync.Once
+}
+
+func (d *gcDeadlineCtx) Done() <-chan struct{} { return d.done }
+func (d *gcDeadlineCtx) Err() error {
+	select {
+	case <-d.done:
+		return context.DeadlineExceeded
+	default:
+		return nil
+	}
+}
+func (d *gcDeadlineCtx) Deadline() (time.Time, bool) { return time.Now().Add(time.Millisecond), true }
+func (d *gcDeadlineCtx) expire()                     { d.once.Do(func() { close(d.done) }) }
+
 type gcRunner struct {
 	r             *tr.Run
 	sc            gcScenario
@@ -103,6 +124,7 @@ type gcRunner struct {
 	gateEvDone    chan struct{} // closed when the call made by the gate event has returned (or the gate was not reached)
 	gateEvOnce    sync.Once
 	sharedDec     map[int]message.Subscriber
+	preClose      func()
 }
 
 func gcMetaSnapshot(m *message.Message) string {
@@ -250,6 +272,10 @@ func (x *gcRunner) subscribe(s gcSub) {
 	ctx, cancel := context.WithCancel(context.Background())
 	if s.BgCtx {
 		ctx, cancel = context.Background(), func() {}
+	}
+	if s.Deadline {
+		d := &gcDeadlineCtx{Context: context.Background(), done: make(chan struct{})}
+		ctx, cancel = d, d.expire
 	}
 	ctx = context.WithValue(ctx, gcMarker{}, s.Name)
 	ctx = verifhook.WithName(ctx, x.prefix+s.Name)
@@ -412,6 +438,8 @@ func (x *gcRunner) consume(s gcSub, ch <-chan *message.Message, cnt *int32, canc
 			time.Sleep(2 * time.Millisecond)
 		case s.Behav == "stall2" && n == 2:
 			time.Sleep(1600 * time.Millisecond)
+		case s.Behav == "stall6" && n == 1:
+			time.Sleep(5600 * time.Millisecond) // a consumer that takes its time (longer than any "slow consumer" threshold one may think of)
 		}
 		if s.Behav == "mutate" {
 			msg.Metadata.Set("k", "edited-by-"+s.Name)
@@ -458,6 +486,9 @@ func (x *gcRunner) closePubSub(name string, viaDecorators bool) {
 		for _, d := range decs {
 			err = d.Close()
 		}
+		if pre := x.takePreClose(); pre != nil {
+			pre() // (something that happens right before the call, with nothing in between)
+		}
 		err = x.g.Close()
 	})
 	if p {
@@ -477,6 +508,14 @@ func (x *gcRunner) closePubSub(name string, viaDecorators bool) {
 	sort.Strings(open)
 	x.emit("closeend", "c", name, "open", open)
 	x.closeOnce.Do(func() { close(x.closeReturned) })
+}
+
+func (x *gcRunner) takePreClose() func() {
+	x.mu.Lock()
+	defer x.mu.Unlock()
+	f := x.preClose
+	x.preClose = nil
+	return f
 }
 
 // waitIdle waits until no event has been recorded for quiet, at most bound.
@@ -542,6 +581,16 @@ func (x *gcRunner) fire(ev string) {
 		if ev == "close2" {
 			x.closePubSub(fmt.Sprintf("c%d", atomic.AddInt32(&x.closedN, 1)), false)
 		}
+	case strings.HasPrefix(ev, "expireclose:"):
+		// the subscription's context ends and Close is called in the same breath
+		n := strings.TrimPrefix(ev, "expireclose:")
+		x.mu.Lock()
+		c := x.cancels[n]
+		x.subLive[n] = false
+		x.preClose = c
+		x.mu.Unlock()
+		x.emit("cancel", "s", n)
+		x.closePubSub(fmt.Sprintf("c%d", atomic.AddInt32(&x.closedN, 1)), false)
 	case ev == "closepair":
 		// two Close calls overlap: the second arrives while the first is at work
 		var wg sync.WaitGroup
@@ -696,6 +745,9 @@ func (x *gcRunner) body() (gateReached bool) {
 			p1.Add(1)
 			go func() {
 				defer p1.Done()
+				if s.AfterPubs {
+					<-waitOr(waitWG(&x.pubsWg), HangBound)
+				}
 				x.subscribe(s)
 				if s.CancelAt == 1 { // (cancelled only once it exists)
 					time.Sleep(time.Duration(200) * time.Microsecond)
@@ -722,6 +774,11 @@ func (x *gcRunner) body() (gateReached bool) {
 		arriveWait := 300 * time.Millisecond
 		if strings.HasPrefix(sc.Gate.ID, "m:") && len(sc.Gate.ID) > 3 {
 			arriveWait = HangBound // a gate deep inside a long stream of messages
+		}
+		for _, sb := range sc.Subs {
+			if sb.AfterPubs {
+				arriveWait = HangBound // the gated Subscribe comes after a long backlog was published
+			}
 		}
 		gateReached = gate.Arrived(arriveWait)
 		if gateReached {
@@ -776,6 +833,9 @@ func (x *gcRunner) body() (gateReached bool) {
 		}
 		if s.CancelAt == 2 {
 			x.fire("cancel:" + s.Name)
+		}
+		if s.CancelAt == 3 {
+			x.fire("expireclose:" + s.Name)
 		}
 	}
 	<-waitOr(waitWG(&p2), HangBound)
